@@ -272,12 +272,12 @@ theorem kq_of_cert {P : Params} (hP : P.Valid) {T evs : List (Ev (Op P))} {m : M
 /-- a local commit quorum is an authentic commit quorum for the accepted proposal's value -/
 theorem kq_of_local {P : Params} (hP : P.Valid) {T evs : List (Ev (Op P))} {log : List Msg}
     (hlog : ∀ m ∈ log, LogOK P T m) (i : Op P) (s : State) (hinv : NodeInv P T i s) (m p agg : Msg)
-    (ha : authentic P log m = true) (hacc : s.accepted = some p)
+    (ha : authentic P log m = true ∧ m.ident = ownIdent) (hacc : s.accepted = some p)
     (hv : validateCommit (P.cfg i) m.toBase s.height s.round p = .ok ())
     (hq : (P.cfg i).quorum ≤ (longestUniqueSigners (s.commit ++ [m]) m.round m.root).1.length)
     (hagg : aggregateCommitMsgs (longestUniqueSigners (s.commit ++ [m]) m.round m.root).2 p.fullData = .ok agg)
     {k : Nat} (hk : T.length ≤ k) : QAbs.KQ (ctxT P hP (T ++ evs)) k agg.round agg.fullData := by
-  obtain ⟨hmok, hmr, hroot⟩ := commitOK_of_validateCommit hlog i m _ _ p hv ha
+  obtain ⟨hmok, hmr, hroot⟩ := commitOK_of_validateCommit hlog i m _ _ p hv ha.1 ha.2
   have hcc : ∀ x ∈ s.commit ++ [m], CommitOK P T x ∧ x.signers.Nodup := by
     intro x hx
     rcases List.mem_append.1 hx with hx | hx
@@ -317,7 +317,7 @@ structure StepCtx (P : Params) (hP : P.Valid) (T : List (Ev (Op P))) (log : List
     (os os' : Option State) (bs : List Msg) (evs : List (Ev (Op P))) : Prop where
   hi : P.honest i = true
   hlog : ∀ m ∈ log, LogOK P T m
-  hst : NStep (P.cfg i) P.height (fun m => authentic P log m = true) i os os' bs evs
+  hst : NStep (P.cfg i) P.height (fun m => authentic P log m = true ∧ m.ident = ownIdent) i os os' bs evs
   hpre : NodeInvO P T i os
   R : QAbs.Rules (ctxT P hP T)
 
@@ -344,7 +344,7 @@ theorem step_H6 (X : StepCtx P hP T log i os os' bs evs) :
   · obtain ⟨v, hkq⟩ := X.R.H6 i' rc k hb hold
     exact ⟨v, kq_ext hkq⟩
   · obtain ⟨rfl, m, ha, hv, hr, _⟩ := origin_G X.hst (getElem?_mem' hnew)
-    have cf := cert_facts hP X.hlog i' m hv ha
+    have cf := cert_facts hP X.hlog i' m hv ha.1 ha.2
     rw [hr]
     exact ⟨m.root, kq_of_cert hP cf hk⟩
 
@@ -356,7 +356,7 @@ theorem step_H7 (X : StepCtx P hP T log i os os' bs evs) :
   · exact kq_ext (X.R.H7 i' r v k hb hold)
   · obtain ⟨rfl, hcase⟩ := origin_D X.hst (getElem?_mem' hnew)
     rcases hcase with ⟨m, ha, hv, hr, hvv⟩ | ⟨s, m, p, agg, h0, ha, hacc, hv, hq, hagg, hr, hvv⟩
-    · have cf := cert_facts hP X.hlog i' m hv ha
+    · have cf := cert_facts hP X.hlog i' m hv ha.1 ha.2
       rw [hr, hvv, cf.hash]
       exact kq_of_cert hP cf (by omega)
     · have hpre := X.hpre
